@@ -227,14 +227,52 @@ func safely(f func()) (panicked bool, val interface{}) {
 // showItem is the impl-side canonical rendering (same shape as the driver's showItem).
 func showItem(it ast.ItemNode) string {
 	return fmt.Sprintf("bytes=%s str=%s vars=%s size=%d",
-		hx(it.ToBytes()), hxs(fmt.Sprint(it)), hxList(it.Variables()), it.Size())
+		hx(keep(it.ToBytes())), hxs(fmt.Sprint(it)), hxList(it.Variables()), it.Size()) + earlierResults()
+}
+
+// handedOut: byte slices the library returned earlier; it must never write to them again
+// (a later ToBytes reusing a shared buffer would).
+var handedOut []struct {
+	b    []byte
+	copy string
+}
+
+// guardOff: set (before any goroutine starts) by the concurrency worker, which must not share
+// harness state between goroutines
+var guardOff bool
+
+func keep(b []byte) []byte {
+	if !guardOff && len(b) > 0 && len(b) <= 4096 {
+		if len(handedOut) >= 8 {
+			handedOut = handedOut[1:]
+		}
+		handedOut = append(handedOut, struct {
+			b    []byte
+			copy string
+		}{b, string(b)})
+	}
+	return b
+}
+
+// earlierResults reports " EARLIER-RESULT-OVERWRITTEN" when a slice handed out before changed.
+func earlierResults() string {
+	if guardOff {
+		return ""
+	}
+	for _, h := range handedOut {
+		if string(h.b) != h.copy {
+			handedOut = nil
+			return " EARLIER-RESULT-OVERWRITTEN"
+		}
+	}
+	return ""
 }
 
 func showMsg(m *ast.DataMessage) string {
 	w := map[string]int{"false": 0, "true": 1, "optional": 2}[m.WaitBit()]
 	return fmt.Sprintf("name=%s s=%d f=%d w=%d dir=%s sid=%d sys=%s hdr=%s str=%s vars=%s bytes=%s",
 		hxs(m.Name()), m.StreamCode(), m.FunctionCode(), w, hxs(m.Direction()), m.SessionID(),
-		hx(m.SystemBytes()), hxs(m.Header()), hxs(m.String()), hxList(m.Variables()), hx(m.ToBytes()))
+		hx(keep(m.SystemBytes())), hxs(m.Header()), hxs(m.String()), hxList(m.Variables()), hx(keep(m.ToBytes()))) + earlierResults()
 }
 
 // implItem builds n and renders it, mapping any panic to PANIC.
